@@ -253,7 +253,7 @@ def rec_overrides(m):
 def r_once(c):
     m = c.model
     ovs = rec_overrides(m)
-    if len(ovs) < 8:
+    if len(ovs) < 5:
         raise AnalysisError(f"only {len(ovs)} cached rec implementations found")
     for (qn, name, fd) in ovs:
         cl = rec_classifier(m, qn, qn)
@@ -338,8 +338,8 @@ def r_key(c):
                         f"cache key does not depend on parameter {p_!r}: two calls "
                         "differing only there share one cache entry "
                         f"(returns: {src_ret[:80]})")
-    if n < 12:
-        raise AnalysisError(f"only {n} cache-key functions found (floor 12)")
+    if n < 8:
+        raise AnalysisError(f"only {n} cache-key functions found (floor 8)")
     # concrete cached walkers need a function-definition key unless they cut map_call
     for qn in m.subclasses(CWALK, strict=True):
         from pta.flow import _raises_only
@@ -422,8 +422,8 @@ def r_collision(c):
                             "R13-COLLISION", m.qualname(fd).replace("pytato.", ""),
                             f"reraises:{t}", m.loc(mi, h),
                             f"{t} is caught and swallowed")
-    if n < 4:
-        raise AnalysisError(f"only {n} handlers of cache errors found (floor 4)")
+    if n < 2:
+        raise AnalysisError(f"only {n} handlers of cache errors found (floor 2)")
     # TransformMapperCache.add: first-seen equal result wins
     fd = m.func("pytato.transform.TransformMapperCache.add")
 
@@ -510,7 +510,7 @@ def r_clone(c):
                         f"parameter {kw!r} of the mapper cloned for a function body "
                         f"receives {ast.unparse(v)!r}: settings are swapped or lost "
                         "inside function bodies")
-    if n_sites < 12:
+    if n_sites < 8:
         raise AnalysisError(f"only {n_sites} clone_for_callee arguments found")
 
 
@@ -633,8 +633,8 @@ def r_shared_or(c):
                                 "falsy and is replaced by a private one, so the clone no "
                                 "longer records into the shared one: function bodies are "
                                 "visited once per call site")
-    if n < 15:
-        raise AnalysisError(f"only {n} mapper constructors scanned (floor 15)")
+    if n < 10:
+        raise AnalysisError(f"only {n} mapper constructors scanned (floor 10)")
 
 
 def r_visit_tables(c):
@@ -721,9 +721,9 @@ SPEC = Spec(
     prop="C13",
     rules=[r_children, r_children_overrides, r_once, r_key, r_collision, r_clone,
            r_eq_memo, r_state, r_shared_or, r_visit_tables, r_conditional_passthrough],
-    floors={"R13-CHILDREN": 250, "R13-ONCE": 14, "R13-KEY": 20,
-            "R13-COLLISION": 8, "R13-DOUBLE-CACHE": 8, "R13-CHILDREN-OVR": 20,
-            "R13-CLONE": 12, "R13-EQ-MEMO": 25, "R13-STATE": 8},
+    floors={"R13-CHILDREN": 212, "R13-ONCE": 14, "R13-KEY": 20, "R13-COLLISION": 8,
+            "R13-DOUBLE-CACHE": 7, "R13-CHILDREN-OVR": 20, "R13-CLONE": 12,
+            "R13-EQ-MEMO": 22, "R13-STATE": 7},
     explanation=(
         "R13-CHILDREN enumerates (traversal family, node kind, child edge): for "
         "each of the 9 hand-written traversal families and every concrete node "
